@@ -119,6 +119,102 @@ func ruleIndexedIterator(p *Prog, r *Report, rule string) {
 			r.OK(fnName(fn), "data-iterator-follows-index", "after a successful index move the data iterator is replaced before it is used")
 		}
 	}
+	// an exhausted index leaves no data iterator behind: Valid() is `i.data != nil && i.data.Valid()`
+	// and Next/Prev continue from i.data when it is set, so a move that returns because the index
+	// move failed must leave i.data == nil (cleared, or already known nil). Forward dataflow over
+	// (data ∈ {nil, maybe set}) × (index move failed on this path).
+	for _, sp := range spec {
+		fn := resolveFn(p, r, "leveldb/iterator", "(*indexedIterator)."+sp.name)
+		if fn == nil {
+			continue
+		}
+		type st struct{ set, failed bool }
+		seen := map[*ssa.BasicBlock]map[st]bool{}
+		type item struct {
+			b *ssa.BasicBlock
+			s st
+		}
+		work := []item{{fn.Blocks[0], st{true, false}}}
+		badPos := ""
+		nfail := 0
+		for len(work) > 0 {
+			it := work[len(work)-1]
+			work = work[:len(work)-1]
+			if seen[it.b] == nil {
+				seen[it.b] = map[st]bool{}
+			}
+			if seen[it.b][it.s] {
+				continue
+			}
+			seen[it.b][it.s] = true
+			cur := it.s
+			for _, in := range it.b.Instrs {
+				switch {
+				case isCallTo(in, "(*leveldb/iterator.indexedIterator).clearData"):
+					cur.set = false
+				case isCallTo(in, "(*leveldb/iterator.indexedIterator).setData"):
+					cur.set = true
+				case isCallTo(in, "(*leveldb/iterator.indexedIterator).Next", "(*leveldb/iterator.indexedIterator).Prev"):
+					// `return i.Next()`: the continuation answers for itself
+					cur.failed = false
+				}
+				if stp, ok := in.(*ssa.Store); ok && isFieldAddr(stp.Addr, tI, "data") {
+					if c, isC := stp.Val.(*ssa.Const); isC && c.IsNil() {
+						cur.set = false
+					} else {
+						cur.set = true
+					}
+				}
+				if _, ok := in.(*ssa.Return); ok && cur.failed && cur.set && badPos == "" {
+					badPos = p.Pos(in.Pos())
+				}
+			}
+			cond, neg, isIf := ifCond(it.b)
+			for si, succ := range it.b.Succs {
+				ns := cur
+				if isIf {
+					// which way does this edge decide the atoms?
+					imp := func(a Atom) int {
+						wt, wf := a.Match(cond)
+						if neg {
+							wt, wf = wf, wt
+						}
+						if si == 1 {
+							return wf
+						}
+						return wt
+					}
+					switch imp(dataNil) {
+					case +1:
+						if !cur.set {
+							// consistent
+						}
+						ns.set = false
+					case -1:
+						if !cur.set {
+							continue // infeasible: known nil
+						}
+					}
+					switch imp(idxMove) {
+					case -1:
+						ns.failed = true
+						nfail++
+					case +1:
+						ns.failed = false
+					}
+				}
+				work = append(work, item{succ, ns})
+			}
+		}
+		r.Site(nfail)
+		if nfail == 0 {
+			r.Fail(fnName(fn), "exhausted-index-clears-data:unresolved-anchor", "the failed index move of "+sp.name+" was found", "no branch on an index move", p.Pos(fn.Pos()), nil)
+		} else if badPos != "" {
+			r.Fail(fnName(fn), "exhausted-index-clears-data", "a move that fails because the index is exhausted leaves no data iterator (Valid() is false, the next Next/Prev starts from the index)", "after the failed index move a return is reached with the old data iterator still set: Valid()/Key()/Value() answer from the previous position and Prev/Next continue from it", badPos, nil)
+		} else {
+			r.OK(fnName(fn), "exhausted-index-clears-data", "a move that fails because the index is exhausted leaves no data iterator (Valid() is false, the next Next/Prev starts from the index)")
+		}
+	}
 	// dataErr: corruption of a data block is tolerated only when not strict; other errors always latch
 	if fn := resolveFn(p, r, "leveldb/iterator", "(*indexedIterator).dataErr"); fn != nil {
 		strict := boolAtom("strict", mFieldLoad(tI, "strict"))
